@@ -191,7 +191,7 @@ func runFlags(t *simrt.Tape, keep bool) simrt.Outcome {
 			var args []string
 			keys := []string{"X-Account-ID", "x-lower", "X-MiXeD", "Content-Type", "X_Under"}
 			for i := 0; i < n; i++ {
-				k, v := keys[t.Choose(len(keys))], []string{"1", "text/plain", "a:b", "Token x y"}[t.Choose(4)]
+				k, v := keys[t.Choose(len(keys))], []string{"1", "text/plain", "a:b", "Token x y", "see: RFC 9110", `{"a": 1, "b" :2}`, "09:00 : 17:00", "http://h:80/p?x=1"}[t.Choose(8)]
 				sp1, sp2 := strings.Repeat(" ", t.Choose(3)), strings.Repeat(" ", t.Choose(3))
 				args = append(args, "-header="+sp1+k+sp2+":"+sp1+v+sp2)
 				want[k] = append(want[k], v)
@@ -329,6 +329,21 @@ func runFlagFuzz(t *simrt.Tape, keep bool) simrt.Outcome {
 	}
 	if t.Prob(1, 10) {
 		v = t.Bytes(t.Choose(40))
+	}
+	if t.Prob(1, 5) {
+		// address-shaped values put together from the pieces the address grammars know (hosts with and without
+		// brackets, zones, ports in and out of range), singly, as a list, or as a connect-to tuple
+		hosts := []string{"1.2.3.4", "[1.2.3.4]", "[::1]", "::1", "[fe80::1%eth0]", "example.com", "", "256.1.1.1", "[::ffff:1.2.3.4]", "1.2.3.4.", "[1.2.3.4", "1.2.3.4]", "[]", "0x7f.1", "localhost"}
+		ports := []string{"", ":53", ":0", ":65535", ":65536", ":", ":-1", ":053", ":http", ":5 3"}
+		addr := func() string { return hosts[t.Choose(len(hosts))] + ports[t.Choose(len(ports))] }
+		switch t.Choose(3) {
+		case 0:
+			v = []byte(addr())
+		case 1:
+			v = []byte(addr() + "," + addr())
+		case 2:
+			v = []byte(addr() + ":" + addr())
+		}
 	}
 	s := string(v)
 	r.log.Addf("value %q", s)
